@@ -253,7 +253,11 @@ func TestC19(t *testing.T) {
 							return nil, nil
 						}
 						if n%3 == 0 {
-							sub, err := testutil.UnixFSDirectory(*ls, 2000, testutil.WithRandReader(rnd), testutil.WithDirname(name))
+							dn := name
+							if gg.Var%2 == 1 {
+								dn = name + ".d" // the generator names its own children
+							}
+							sub, err := testutil.UnixFSDirectory(*ls, 2000, testutil.WithRandReader(rnd), testutil.WithDirname(dn))
 							if err != nil {
 								return nil, err
 							}
@@ -301,6 +305,11 @@ func TestC19(t *testing.T) {
 						}
 						sub := testutil.GenerateDirectoryFrom(t, ls, rnd, 3000, "/sub", false)
 						children = append(children, sub)
+						if gg.Var%2 == 0 {
+							// a child that comes from a CIDv0 importer: it is linked by the root it has
+							v0 := st.PutBlock(0, cid.DagProtobuf, encodePB([]byte{8, 2, 0x12, 3, 'v', '0', byte(gg.Var)}, true, nil))
+							children = append(children, testutil.DirEntry{Path: "/from-v0-importer", Content: []byte{'v', '0', byte(gg.Var)}, Root: v0, SelfCids: []cid.Cid{v0}, TSize: 11})
+						}
 						if gg.Var%3 == 2 {
 							// names that path cleaning would swallow are names all the same
 							for _, odd := range []string{"/.", "/..", "/...", "/.hidden"} {
